@@ -25,8 +25,9 @@ pub fn run() -> i32 {
 pub fn preview_probe() -> i32 {
     let mut rng = jxlgen::rng::Rng::new(5);
     let (mut ok, mut bad) = (0, 0);
-    for _ in 0..200 {
-        let Some(b) = jxlgen::hostile::preview_carrier_modular(&mut rng) else { continue };
+    for _ in 0..40 {
+        let big: u32 = std::env::var("LAB_PREVIEW_DIM").ok().and_then(|v| v.parse().ok()).unwrap_or(40);
+        let Some(b) = jxlgen::hostile::preview_carrier_modular_sized(&mut rng, big) else { continue };
         match open_image(&b, Pool::None, true) {
             Ok(img) => match img.render_frame(0) {
                 Ok(_) => ok += 1,
